@@ -3,12 +3,14 @@ import EyeballVerif.Driver.Vec
 import EyeballVerif.Driver.Adp
 import EyeballVerif.Driver.Obs
 import EyeballVerif.Driver.Conc
+import EyeballVerif.Driver.Own
 open EV
 
 structure DState where
   adp : AdpSt := {}
   obs : ObsDrv := {}
   conc : CS := CS.init true 0 1 0 []
+  own : Ledger := Ledger.init
 
 def stepLine (st : DState) (line : String) : DState × String :=
   let toks := (line.trimAscii.toString.splitOn " ").filter (· ≠ "")
@@ -22,6 +24,9 @@ def stepLine (st : DState) (line : String) : DState × String :=
     | some f, some d, some l => (st, (d.map f).show ++ " " ++ showOptList ((d.map f).apply (l.map f)))
     | _, _, _ => (st, "bad-op")
   | _ =>
+    match ownStep st.own toks with
+    | some (own, out) => ({ st with own }, out)
+    | none =>
     match concStep st.conc toks with
     | some (conc, out) => ({ st with conc }, out)
     | none =>
